@@ -210,6 +210,7 @@ func init() {
 		Assumptions: []string{
 			"the content type is sent where the official clients send it (request header for media, JSON metadata for multipart/resumable)",
 			"bucket names do not coincide with the API's own path markers; uploads go to existing buckets",
+			"when the object resource names a contentType and the media part / X-Upload-Content-Type header names another, the resource's wins (as in the real service); a resource without contentType next to a typed part is not judged",
 		},
 		Run:    runC02,
 		Replay: gcsReplay("C02", c02Tag),
